@@ -29,6 +29,9 @@ type HarnessSpec struct {
 	ReplayAttempts int
 	TrustRace      bool
 	QueryLog       string // worker 0 logs its first queries here (cross-solver check)
+	// OnNewFinding is called (off the worker threads) for the first candidate violation of every kind/label;
+	// returning true stops the exploration of this harness: a confirmed, not-known violation has been found.
+	OnNewFinding func(f *Finding) bool
 }
 
 type PathResult struct {
@@ -52,28 +55,29 @@ type PathResult struct {
 }
 
 type Stats struct {
-	Paths       int
-	Outcomes    map[string]int
-	States      int
-	Transitions int
-	Steps       int64
-	Queries     int
-	MemoHits    int
-	SolverTime  time.Duration
-	Reached     map[string]int
-	Findings    []Finding
-	FindingN    map[string]int
-	Inconcl     map[string]int
-	Unsupported map[string]int
-	Unwound     map[string]int
-	Internal    map[string]int
-	Samples     []map[string]interface{}
-	Fns         map[string]int
-	Truncated   bool
-	Wall        time.Duration
-	TVTapes     []tvTape
-	MaxThreads  int
-	SolverErrs  []string
+	Paths              int
+	Outcomes           map[string]int
+	States             int
+	Transitions        int
+	Steps              int64
+	Queries            int
+	MemoHits           int
+	SolverTime         time.Duration
+	Reached            map[string]int
+	Findings           []Finding
+	FindingN           map[string]int
+	Inconcl            map[string]int
+	Unsupported        map[string]int
+	Unwound            map[string]int
+	Internal           map[string]int
+	Samples            []map[string]interface{}
+	Fns                map[string]int
+	Truncated          bool
+	StoppedOnViolation bool
+	Wall               time.Duration
+	TVTapes            []tvTape
+	MaxThreads         int
+	SolverErrs         []string
 }
 
 type tvTape struct {
@@ -94,6 +98,7 @@ type Explorer struct {
 	st    Stats
 	tvMax int
 	start time.Time
+	cbWG  sync.WaitGroup
 }
 
 func findingKey(f *Finding) string {
@@ -161,6 +166,21 @@ func (x *Explorer) done(r *PathResult) {
 		k := findingKey(f)
 		if s.FindingN[k] == 0 {
 			s.Findings = append(s.Findings, *f)
+			if x.h.OnNewFinding != nil {
+				x.cbWG.Add(1)
+				go func(f Finding) {
+					defer x.cbWG.Done()
+					if x.h.OnNewFinding(&f) {
+						x.mu.Lock()
+						if !x.stop {
+							x.stop = true
+							x.st.StoppedOnViolation = true
+						}
+						x.cond.Broadcast()
+						x.mu.Unlock()
+					}
+				}(*f)
+			}
 		}
 		s.FindingN[k]++
 	}
@@ -254,8 +274,9 @@ func explore(w *World, h HarnessSpec, workers int) (*Stats, error) {
 		}(i)
 	}
 	wg.Wait()
+	x.cbWG.Wait()
 	x.st.Wall = time.Since(x.start)
-	if len(x.front) > 0 {
+	if len(x.front) > 0 && !x.st.StoppedOnViolation {
 		x.st.Truncated = true
 	}
 	sort.Slice(x.st.Findings, func(i, j int) bool { return findingKey(&x.st.Findings[i]) < findingKey(&x.st.Findings[j]) })
